@@ -2,7 +2,7 @@
 import vlib, proglib
 from proglib import DT
 
-PROP_FILES = ["Properties_C11.v"]
+PROP_FILES = ["Properties_C11.v", "Properties_refine.v"]
 
 
 def pre_run(ctx):
